@@ -8,6 +8,12 @@ Min(a, b) == IF a < b THEN a ELSE b
 \* slashing a holding by num/den: the whole amount if the slice truncates to zero
 SlashAmt(a, num, den) == LET x == (a * num) \div den IN IF x = 0 THEN a ELSE x
 
+\* reward emission: what one execution block moves from the remaining grant into distribution
+EmissionMove(scheduled, remain) == Min(scheduled, remain)
+
+\* a validator's share of a pool before the 18-digit rounding correction: floor(pool * p / P)
+FloorShare(pool, p, P) == (pool * p) \div P
+
 \* an unlock releases min(asked, held)
 UnlockAmt(asked, held) == Min(asked, held)
 =============================================================================
